@@ -99,13 +99,21 @@ def readerSession (f : List String) : IO String := do
         let d ← loadBlob b
         r := FrameR.reset r (mkSrc d); res := res.push "-"
       | ["A", o] =>
-        let (_, c) := parseOpts o
-        -- Reader.Apply(ConcurrencyOption)
+        let (opts, _) := parseOpts o
+        -- Reader.Apply: only ConcurrencyOption applies to a Reader; the options run in order and the first
+        -- error stops them (and, through `state.check`, puts the Reader in the error state)
         if r.st = Gen.stError then res := res.push (errName r.err)
         else if r.st ≠ Gen.stNew then
           r := FrameR.check r (some .closedOrError); res := res.push "closedOrErr"
         else
-          r := { r with num := c.getD r.num }; res := res.push "ok"
+          let mut e : Option Err := none
+          for op in opts do
+            if e.isNone then
+              match op with
+              | .concurrency n => r := { r with num := n }
+              | _ => e := some .notApplicable
+          r := FrameR.check r e
+          res := res.push (errName e)
       | _ => res := res.push "bad-op"
     pure s!"{" ".intercalate res.toList} ; consumed={r.src.pos}"
   | _ => pure "bad-op"
